@@ -215,8 +215,9 @@ type solveResult struct {
 }
 
 // runSolvers races the installed solvers on one script.  The first definitive
-// answer (sat/unsat) wins; in thorough mode every solver is run to completion
-// and disagreement is reported.
+// answer (sat/unsat) wins; in thorough mode all solvers start at once, the others
+// get a grace period after the first answer (5 s + twice the winner's time) to
+// cross-check it, and disagreement is reported.
 func runSolvers(file string, timeout time.Duration, seed int, all bool) solveResult {
 	qfFile := ""
 	if src, err := os.ReadFile(file); err == nil && strings.Contains(string(src), "(_ BitVec") {
@@ -286,6 +287,11 @@ func runSolvers(file string, timeout time.Duration, seed int, all bool) solveRes
 		outs = append(outs, fmt.Sprintf("[%s %.2fs] %s", a.name, a.t, firstLines(a.out, 3)))
 		if a.verdict != "unknown" && res.Verdict == "unknown" {
 			res.Verdict, res.Backend, res.Time, res.Output = a.verdict, a.name, a.t, a.out
+			if all {
+				// cross-check: the other solvers get a grace period proportional to the winner's time
+				grace := time.Duration(2*a.t*float64(time.Second)) + 5*time.Second
+				time.AfterFunc(grace, cancel)
+			}
 			if !all {
 				cancel()
 				// drain
